@@ -167,7 +167,11 @@ func checkC05(c caseC05) (Outcome, error) {
 			return out, fmt.Errorf("klog %s reported success but the file has syntax errors (line %d: %s)\nbefore: %s\nafter:  %s",
 				cmdString(c.Cmd), errs[0].LineNumber(), errs[0].Code(), quoteShort(text), quoteShort(after))
 		}
-		if errsBefore != nil || c.Missing {
+		if c.Missing {
+			out.Label("created-missing-file") // a command that creates its target is not against C05: the file parses
+			return out, nil
+		}
+		if errsBefore != nil {
 			return out, fmt.Errorf("klog %s reported success on an unparseable or missing file\nbefore: %s\nafter:  %s", cmdString(c.Cmd), quoteShort(text), quoteShort(after))
 		}
 		return out, nil
